@@ -1,18 +1,17 @@
 SPECIFICATION Spec
 CONSTANTS
-  GenFiles = {1, 3, 4}
+  GenFiles = {1, 3}
   OtherFiles = {}
   Modes = {292, 420}
-  Variants = {0, 2}
+  Variants = {0, 4, 7, 8}
   ChmodGate = TRUE
   CopyGate = TRUE
   Truncates = TRUE
-  PPOrder = "program_first"
+  PPOrder = "mode_first"
   Privileged = FALSE
-  OptsSel = "t16"
-  EnvOn = FALSE
-  Record = TRUE
-  MaxSteps = 3
+  OptsSel = "all"
+  EnvOn = TRUE
+  Record = FALSE
+  MaxSteps = 0
 INVARIANT RunEndOK
-INVARIANT Emit
 CHECK_DEADLOCK FALSE
